@@ -40,6 +40,22 @@ class Boom(Exception):
     pass
 
 
+class BaseBoom(BaseException):
+    """an exception outside the Exception hierarchy (like KeyboardInterrupt, GeneratorExit)"""
+
+
+def boom_of(kind):
+    import asyncio
+
+    return {"exc": Boom, "base": BaseBoom, "cancel": asyncio.CancelledError}[kind]
+
+
+def BOOMS():
+    import asyncio
+
+    return (Boom, BaseBoom, asyncio.CancelledError)
+
+
 def make_creds():
     from puresnmp.credentials import V1, V2C, V3, Auth, Priv
 
@@ -89,7 +105,7 @@ def gen_prog(rng, depth, max_depth, size):
         elif r < 0.8 and depth < max_depth:
             out.append(["reconfigure", gen_kwargs(rng), gen_prog(rng, depth + 1, max_depth, max(1, size - 1))])
         elif r < 0.88 and depth > 0:
-            out.append(["raise"])
+            out.append(["raise", rng.choice(["exc", "exc", "base", "cancel"])])
         elif r < 0.95 and depth < max_depth:
             out.append(["catch", gen_prog(rng, depth + 1, max_depth, max(1, size - 1))])
         else:
@@ -179,7 +195,7 @@ class Run:
             if k == "request":
                 try:
                     await self.client.get(RA.OID(OID))
-                except (Boom, TypeError):
+                except (TypeError,) + BOOMS():
                     raise
                 except Exception as exc:  # noqa: BLE001
                     self.obs.append(["request-error", RA.canon_exc(exc)])
@@ -220,11 +236,11 @@ class Run:
                     if self.client.config is not config or self.client.mpm is not mpm:
                         self.failures.append("config / message-processing instance not restored at block exit" + ("" if entered else " (block not entered)"))
             elif k == "raise":
-                raise Boom()
+                raise boom_of(st[1] if len(st) > 1 else "exc")()
             elif k == "catch":
                 try:
                     await self.exec_list(st[1])
-                except Boom:
+                except BOOMS():
                     pass
 
     def check_seam(self, kw, obs):
@@ -243,7 +259,7 @@ class Run:
         err = None
         try:
             W.run(self.exec_list(prog))
-        except Boom:
+        except BOOMS():
             err = "boom"
         except TypeError:
             err = "typeError"
